@@ -1,0 +1,156 @@
+//! Verification seams (cargo feature `verif-hooks`).
+//!
+//! Nothing in here is part of the supported API. The seams change *who decides*
+//! (which background task runs when, what time it is), never *what happens*:
+//! with no harness installed on the current thread every function falls through
+//! to tokio / the real clock.
+
+use std::cell::{Cell, RefCell};
+use std::future::Future;
+use std::net::SocketAddr;
+use std::pin::Pin;
+use std::time::{Duration, Instant};
+
+pub use crate::happy_eyeballs::{EyeballSet, HappyEyeballsError};
+
+/// A background task handed to the harness instead of tokio.
+pub type BoxedTask = Pin<Box<dyn Future<Output = ()> + Send + 'static>>;
+
+/// A spawned task together with the source location of the spawn site.
+pub struct Spawned {
+    /// `file:line` of the call to `spawn` inside hyperdriver.
+    pub site: String,
+    /// The task.
+    pub task: BoxedTask,
+}
+
+impl std::fmt::Debug for Spawned {
+    fn fmt(&self, f: &mut std::fmt::Formatter<'_>) -> std::fmt::Result {
+        f.debug_struct("Spawned").field("site", &self.site).finish()
+    }
+}
+
+thread_local! {
+    static SPAWNED: RefCell<Option<Vec<Spawned>>> = const { RefCell::new(None) };
+    static CLOCK_OFFSET: Cell<Duration> = const { Cell::new(Duration::ZERO) };
+}
+
+/// Start capturing tasks spawned by hyperdriver on this thread.
+pub fn capture_spawns(enable: bool) {
+    SPAWNED.with(|s| *s.borrow_mut() = if enable { Some(Vec::new()) } else { None });
+}
+
+/// Take the tasks captured since the last call.
+pub fn take_spawned() -> Vec<Spawned> {
+    SPAWNED.with(|s| {
+        s.borrow_mut()
+            .as_mut()
+            .map(std::mem::take)
+            .unwrap_or_default()
+    })
+}
+
+/// Spawn seam: capture the task if a harness is installed, otherwise `tokio::spawn`.
+#[track_caller]
+pub fn spawn<F>(future: F)
+where
+    F: Future + Send + 'static,
+    F::Output: Send + 'static,
+{
+    let location = std::panic::Location::caller();
+    let captured = SPAWNED.with(|s| s.borrow().is_some());
+    if captured {
+        let site = format!("{}:{}", location.file(), location.line());
+        let task: BoxedTask = Box::pin(async move {
+            let _ = future.await;
+        });
+        SPAWNED.with(|s| {
+            if let Some(queue) = s.borrow_mut().as_mut() {
+                queue.push(Spawned { site, task });
+            }
+        });
+    } else {
+        tokio::spawn(future);
+    }
+}
+
+/// Stand-in for the `tokio` crate name at the spawn sites.
+pub(crate) mod shim {
+    pub(crate) use super::spawn;
+    pub(crate) mod task {
+        pub(crate) use super::super::spawn;
+    }
+}
+
+/// Clock seam: the real clock plus a per-thread offset.
+pub fn now() -> Instant {
+    Instant::now() + CLOCK_OFFSET.with(|c| c.get())
+}
+
+/// Move this thread's pool clock forward.
+pub fn advance_clock(by: Duration) {
+    CLOCK_OFFSET.with(|c| c.set(c.get() + by));
+}
+
+/// Reset this thread's pool clock offset.
+pub fn reset_clock() {
+    CLOCK_OFFSET.with(|c| c.set(Duration::ZERO));
+}
+
+/// Address family preference, mirroring the crate-private use in the TCP transport.
+pub use crate::client::conn::dns::IpVersion;
+
+/// Run the crate-private address sorting (and optional port rewrite) on a list.
+pub fn sort_preferred(
+    addrs: Vec<SocketAddr>,
+    prefer: Option<IpVersion>,
+    port: Option<u16>,
+) -> Vec<SocketAddr> {
+    let mut addrs: crate::client::conn::dns::SocketAddrs = addrs.into_iter().collect();
+    addrs.sort_preferred(prefer);
+    if let Some(port) = port {
+        addrs.set_port(port);
+    }
+    let mut out = Vec::with_capacity(addrs.len());
+    while let Some(addr) = addrs.pop() {
+        out.push(addr);
+    }
+    out
+}
+
+/// Read-only picture of the pool for one origin token.
+#[derive(Debug, Clone, PartialEq, Eq, Hash)]
+pub struct TokenSnapshot {
+    /// Numeric token.
+    pub token: usize,
+    /// In-flight (multiplexed) connection attempt marker.
+    pub connecting: bool,
+    /// Waiter queue in order: `true` when the receiving side is closed.
+    pub waiters_closed: Vec<bool>,
+    /// Idle entries in stack order.
+    pub idle: Vec<IdleSnapshot>,
+}
+
+/// Read-only picture of one idle entry.
+#[derive(Debug, Clone, PartialEq, Eq, Hash)]
+pub struct IdleSnapshot {
+    /// Caller-provided description of the connection.
+    pub conn: String,
+    /// `is_open()` at snapshot time.
+    pub open: bool,
+    /// `can_share()` at snapshot time.
+    pub shareable: bool,
+    /// Age of the entry on the pool clock.
+    pub age: Duration,
+}
+
+/// Read-only picture of the whole pool.
+#[derive(Debug, Clone, PartialEq, Eq, Hash, Default)]
+pub struct PoolSnapshot {
+    /// One entry per token that appears in any table, sorted by token.
+    pub tokens: Vec<TokenSnapshot>,
+    /// Key (Debug) to token, sorted by token.
+    pub keys: Vec<(String, usize)>,
+    /// The configured idle bound.
+    pub max_idle_per_host: usize,
+}
